@@ -337,14 +337,21 @@ fn xml_style_comments_parser(
 }
 
 fn c_style_multiline_comment_processor(comment: &str) -> String {
+    // Under error recovery a grammar may hand over a comment node without its delimiters
+    // (e.g. an unterminated `/* ...` or `/*/`): blank only the delimiters that are there.
+    let Some(open_idx) = comment.find("/*") else {
+        return comment.to_string();
+    };
+    let content_start = open_idx + 2;
+    let close_idx = comment[content_start..]
+        .rfind("*/")
+        .map(|idx| idx + content_start);
     let mut result = String::with_capacity(comment.len());
-    let open_idx = comment.find("/*").expect("expected '/*' in a comment");
-    let close_idx = comment.rfind("*/").expect("expected '*/' in a comment");
     // Add everything before the "/*"
     result.push_str(&comment[..open_idx]);
     // Replace "/*" with spaces.
     result.push_str("  ");
-    let content = &comment[open_idx + 2..close_idx];
+    let content = &comment[content_start..close_idx.unwrap_or(comment.len())];
     for line in content.split_inclusive('\n') {
         let mut decorative_star_found = false;
 
@@ -366,10 +373,12 @@ fn c_style_multiline_comment_processor(comment: &str) -> String {
             result.push_str(line);
         }
     }
-    // Replace "*/" with spaces.
-    result.push_str("  ");
-    // Add everything after the "*/".
-    result.push_str(&comment[close_idx + 2..]);
+    if let Some(close_idx) = close_idx {
+        // Replace "*/" with spaces.
+        result.push_str("  ");
+        // Add everything after the "*/".
+        result.push_str(&comment[close_idx + 2..]);
+    }
 
     result
 }
